@@ -151,8 +151,16 @@ class Conn:
         settle(2)
 
 
+IDMAP: dict = {}      # model id (e.g. "n2") -> real job id string; set by the C19 check
+IDINV: dict = {}
+RESENC = None          # int -> result object (C19: the result dictionaries of decodeResult)
+RESDEC = None
+
+
 def fmt_id(i):
-    return f"#{i}" if isinstance(i, int) else str(i)
+    if isinstance(i, int):
+        return f"#{i}"
+    return IDINV.get(i, str(i))
 
 
 def fmt_err(e):
@@ -167,7 +175,7 @@ def fmt_err(e):
 
 def fmt_job(j):
     info = ",".join(f"{k}:{v}" for k, v in j.info.items())
-    res = "-" if j.result is None else str(j.result)
+    res = "-" if j.result is None else str(RESDEC(j.result) if RESDEC else j.result)
     dl = "-" if j.deadline is None else str(j.deadline)
     return (
         f"{fmt_id(j.jobid)}>{j.serial}/{j.channel}/{j.priority}/{j.payload}/{j.timeout}/"
@@ -176,7 +184,7 @@ def fmt_job(j):
 
 
 def parse_id(s):
-    return int(s[1:]) if s.startswith("#") else s
+    return int(s[1:]) if s.startswith("#") else IDMAP.get(s, s)
 
 
 def parse_err(s):
@@ -250,7 +258,7 @@ class Sim:
         lst = lambda s: [] if s in ("-", "") else s.split(",")
         if name == "add":
             ch, prio, jid, timeout, payload = int(t[1]), int(t[2]), t[3], int(t[4]), int(t[5])
-            r = self.workq.push(channel=ch, payload=payload, priority=prio, jobid=None if jid == "-" else jid, timeout=timeout)
+            r = self.workq.push(channel=ch, payload=payload, priority=prio, jobid=None if jid == "-" else parse_id(jid), timeout=timeout)
             out.append("id=" + fmt_id(r))
         elif name == "pull":
             w, chans = int(t[1]), [int(x) for x in lst(t[2])]
@@ -275,7 +283,8 @@ class Sim:
             if self.busy(w):
                 out.append("busy")
             else:
-                self.conn(w).call("finish", lambda h: h.rpc_qfinish(jid, result=None if res == "-" else int(res), error=err))
+                rv = None if res == "-" else (RESENC(int(res)) if RESENC else int(res))
+                self.conn(w).call("finish", lambda h: h.rpc_qfinish(jid, result=rv, error=err))
         elif name == "kill":
             w, ids = int(t[1]), [parse_id(x) for x in lst(t[2])]
             if self.busy(w):
